@@ -65,4 +65,9 @@ class PowFunction(Function):
     async def _eval(self, context: EvalContext) -> EvalResult:
         eval_args = await self.eval_args(context)
 
-        return eval_args[0] ** eval_args[1]
+        result = eval_args[0] ** eval_args[1]
+        if isinstance(result, complex):
+            # A negative base raised to a fractional power is outside the (real) domain of the function
+            raise ExpressionArithmeticError
+
+        return result
